@@ -233,6 +233,7 @@ def systems(tier, seed):
     S.append(('pcsaft_assoc', {'kind': 'pcsaft', 'src': src((P + 'gross2001.json', ['propane']), (P + 'gross2002.json', ['methanol']))}, 2, 320.0, 1000.0))
     S.append(('pcsaft_polar', {'kind': 'pcsaft', 'src': src((P + 'gross2006.json', ['acetone']), (P + 'gross2005_fit.json', ['carbon dioxide']))}, 2, 300.0, 1000.0))
     S.append(('epcsaft', {'kind': 'epcsaft', 'src': src((P + 'gross2001.json', ['propane', 'butane']))}, 2, 300.0, 1000.0))
+    S.append(('epcsaft_ionic', {'kind': 'epcsaft', 'src': src(('epcsaft/held2014_w_permittivity_added.json', ['water', 'sodium ion', 'chloride ion'])), 'binary': 'epcsaft/held2014_binary.json'}, 3, 298.15, 30000.0))
     S.append(('gcpcsaft', {'kind': 'gcpcsaft', 'src': src((P + 'gc_substances.json', ['propane', 'butane'])), 'segments': P + 'sauer2014_hetero.json'}, 2, 300.0, 1000.0))
     S.append(('pets', {'kind': 'pets', 'syn': [[3.4, 120.0, 39.9], [3.6, 165.0, 83.8]], 'bin': {'k_ij': 0.01}}, 2, 150.0, 1000.0))
     for pert in ('wca', 'bh', 'b3'):
@@ -261,10 +262,11 @@ def ternaries(tier, seed):
         ('pr3', {'kind': 'pr', 'syn': [[369.8, 41.9e5, 0.15, 44.0], [425.2, 37.9e5, 0.2, 58.0], [190.6, 46.0e5, 0.011, 16.0]], 'bin': 0.02}, 300.0, 1000.0),
         ('pets3', {'kind': 'pets', 'syn': [[3.4, 120.0, 39.9], [3.6, 165.0, 83.8], [3.0, 90.0, 20.0]], 'bin': {'k_ij': 0.01}}, 150.0, 1000.0),
         ('gcpcsaft3', {'kind': 'gcpcsaft', 'src': src((P + 'gc_substances.json', ['propane', 'butane', 'pentane'])), 'segments': P + 'sauer2014_hetero.json'}, 300.0, 1000.0),
+        ('pcsaft3_polar', {'kind': 'pcsaft', 'src': src((P + 'gross2006.json', ['acetone']), (P + 'gross2005_fit.json', ['carbon dioxide']), (P + 'gross2001.json', ['propane']))}, 300.0, 1000.0),
+        ('pcsaft_2quad', {'kind': 'pcsaft', 'src': src((P + 'gross2005_fit.json', ['carbon dioxide', 'nitrogen']), (P + 'gross2001.json', ['propane']))}, 300.0, 1000.0),
     ]
     if tier == 'thorough':
         S += [
-            ('pcsaft3_polar', {'kind': 'pcsaft', 'src': src((P + 'gross2006.json', ['acetone']), (P + 'gross2005_fit.json', ['carbon dioxide']), (P + 'gross2001.json', ['propane']))}, 300.0, 1000.0),
             ('uv3_wca', {'kind': 'uv', 'pert': 'wca', 'syn': [[12.0, 6.0, 3.4, 120.0], [14.0, 6.0, 3.7, 160.0], [11.0, 6.0, 3.1, 100.0]]}, 150.0, 1000.0),
             ('uv3_bh', {'kind': 'uv', 'pert': 'bh', 'syn': [[12.0, 6.0, 3.4, 120.0], [14.0, 6.0, 3.7, 160.0], [11.0, 6.0, 3.1, 100.0]]}, 150.0, 1000.0),
             ('saftvrmie3', {'kind': 'saftvrmie', 'src': src(('saftvrmie/lafitte2013.json', ['methane', 'ethane', 'propane']))}, 200.0, 1000.0),
@@ -280,7 +282,7 @@ def jobs_C09(tier, seed):
     subsets = [[0, 1], [2], [1, 2]] if tier == 'quick' else [[0, 1], [0, 2], [1, 2], [0], [1], [2], [2, 0], [1, 0]]
     for name, spec, T, V in ternaries(tier, seed):
         x = state(3, T, V, seed)
-        for p in perms:
+        for p in (perms + [[1, 0, 2]] if (name == 'pcsaft_2quad' and [1, 0, 2] not in perms) else perms):
             m2 = dict(spec); m2['idx'] = p
             job = {'job': 'perm', 'model': spec, 'model2': m2, 'x': x}
             if tier == 'thorough' or name in ('pr3', 'pets3'):
@@ -322,6 +324,8 @@ def jobs_C08(tier, seed):
                      {'scale': False, 'eps0': True, 'budget_s': 900}))
         jobs.append(('fun_vs_eos/fmt/' + v, {'job': 'pair', 'model': {'kind': 'bmcsl', 'syn': [[3.4], [3.9]]}, 'model2': {'kind': 'fmt_fun', 'fmt': v, 'syn': [[3.4], [3.9]]},
                                               'x': x2(300.0, 1000.0), 'groups': [['BMCSL~FMT', [0], [0]]]}, {'scale': False, 'eps0': True, 'budget_s': 900}))
+    q2 = {'kind': 'pcsaft', 'src': src((P + 'gross2005_fit.json', ['carbon dioxide', 'nitrogen']))}
+    jobs.append(('fun_vs_eos/pcsaft_2quad', {'job': 'pair', 'model': q2, 'model2': dict(q2, kind='pcsaft_fun', fmt='WhiteBear'), 'x': x2(300.0, 1000.0)}, {'scale': False, 'eps0': True, 'budget_s': 900}))
     pe = {'kind': 'pets', 'syn': [[3.4, 120.0, 39.9], [3.6, 165.0, 83.8]], 'bin': {'k_ij': 0.01}}
     jobs.append(('fun_vs_eos/pets', {'job': 'pair', 'model': pe, 'model2': dict(pe, kind='pets_fun'), 'x': x2(150.0, 1000.0),
                                      'groups': [['Hard_Sphere~FMT', [0], [0]], ['Dispersion~Attractive', [1], [1]]]}, {'scale': False, 'eps0': True, 'budget_s': 900}))
